@@ -252,6 +252,20 @@ Proof.
   cbn [map length]. change (sumZ (?a :: ?l)) with (a + sumZ l). rewrite IH. lia.
 Qed.
 
+(* what the merge computes at the end of a pass: the true loads *)
+Lemma merged_pw_loads st : g_fin st = false -> cinv st ->
+  length (pw_merge (cf_tc cf) (pw_sum (cf_k cf) (g_ws st)) (g_pw st)) = k /\
+  forall q, (q < k)%nat ->
+    nz (pw_merge (cf_tc cf) (pw_sum (cf_k cf) (g_ws st)) (g_pw st)) q = load vw (g_part st) q.
+Proof.
+  intros Hnf [Hlpw Htm Hlw Hcap Hloc Hload Hnw Hfin Hb].
+  destruct (pw_sum_spec k _ Hlw) as [Ls Ns].
+  destruct (pw_merge_spec (cf_tc cf) _ _ k Ls Hlpw) as [Lm Nm].
+  split; [exact Lm|].
+  intros q Hq. change (pw_sum (cf_k cf) (g_ws st)) with (pw_sum k (g_ws st)).
+  rewrite (Nm q Hq), Ns, (Hload q Hq), sum_d_split, (Hnw Hnf). fold tc. lia.
+Qed.
+
 Lemma end_pass_cinv st st' : g_fin st = false -> cinv st -> end_pass cf st = Some st' -> cinv st'.
 Proof.
   intros Hnf Hc H. pose proof (cinv_caps _ Hc) as Hcaps.
